@@ -1034,7 +1034,118 @@ func hasQuant(e Expr) bool {
 // quantified parts of e are not emitted as quantifiers: a generator is
 // recorded, and instances are added for the index terms of each later
 // obligation (see instantiateFor), which keeps the queries quantifier free.
+// conjuncts splits a hypothesis into its top-level conjuncts, looking through macro calls, so that
+// the quantifier-free ones become separate assertions (they then survive the quantifier-free first
+// attempt of the discharger, which drops every assertion that contains a quantifier).
+func (env *Env) conjuncts(e Expr, depth int) []Expr {
+	if b, ok := e.(Binary); ok && b.Op == "&&" {
+		return append(env.conjuncts(b.X, depth), env.conjuncts(b.Y, depth)...)
+	}
+	if c, ok := e.(CallE); ok && depth < 6 {
+		if env.pkg != nil && env.pkgPath == "" {
+			env.pkgPath = env.pkg.Path()
+		}
+		if m, ok := env.vc.eng.contracts.Macros[env.pkgPath+"::"+c.Fn]; ok && len(m.Params) == len(c.Args) {
+			if _, isAnd := m.E.(Binary); isAnd && m.E.(Binary).Op == "&&" {
+				// expand only when no argument mentions a name bound inside the macro body (capture)
+				bound := boundNames(m.E)
+				safe := true
+				for _, a := range c.Args {
+					for n := range identNames(a) {
+						if bound[n] {
+							safe = false
+						}
+					}
+				}
+				if safe {
+					body := m.E
+					// two-step substitution through fresh placeholders (an argument may mention a parameter name)
+					for i, pn := range m.Params {
+						body = substIdent(body, pn, Ident{fmt.Sprintf("\x00p%d", i)})
+					}
+					for i := range m.Params {
+						body = substIdent(body, fmt.Sprintf("\x00p%d", i), c.Args[i])
+					}
+					return env.conjuncts(body, depth+1)
+				}
+			}
+		}
+	}
+	return []Expr{e}
+}
+
+func identNames(e Expr) map[string]bool {
+	out := map[string]bool{}
+	var walk func(Expr)
+	walk = func(x Expr) {
+		switch y := x.(type) {
+		case Ident:
+			out[y.Name] = true
+		case Unary:
+			walk(y.X)
+		case Binary:
+			walk(y.X)
+			walk(y.Y)
+		case CallE:
+			for _, a := range y.Args {
+				walk(a)
+			}
+		case IndexE:
+			walk(y.X)
+			walk(y.I)
+		case SliceE:
+			walk(y.X)
+			if y.Lo != nil {
+				walk(y.Lo)
+			}
+			if y.Hi != nil {
+				walk(y.Hi)
+			}
+		case FieldE:
+			walk(y.X)
+		}
+	}
+	walk(e)
+	return out
+}
+
+func boundNames(e Expr) map[string]bool {
+	out := map[string]bool{}
+	var walk func(Expr)
+	walk = func(x Expr) {
+		switch y := x.(type) {
+		case Unary:
+			walk(y.X)
+		case Binary:
+			walk(y.X)
+			walk(y.Y)
+		case CallE:
+			if (y.Fn == "all" || y.Fn == "any" || y.Fn == "all32" || y.Fn == "any32" || y.Fn == "vec16") && len(y.Args) >= 1 {
+				if id, ok := y.Args[0].(Ident); ok {
+					out[id.Name] = true
+				}
+			}
+			for _, a := range y.Args {
+				walk(a)
+			}
+		case IndexE:
+			walk(y.X)
+			walk(y.I)
+		case FieldE:
+			walk(y.X)
+		}
+	}
+	walk(e)
+	return out
+}
+
 func (env *Env) assumeClause(guard string, e Expr) {
+	if cs := env.conjuncts(e, 0); len(cs) > 1 {
+		for _, c := range cs {
+			env.assumeClause(guard, c)
+		}
+		return
+	}
 	vc := env.vc
 	h := env.withPol(-1)
 	if !env.quantThroughMacros(e) {
